@@ -105,7 +105,7 @@ def _differential(prop, spec, tier):
     from concurrent.futures import ThreadPoolExecutor
     def one(bm):
         b, (c, src, k) = bm
-        r = G.run_driver(b, prop, c, tier, [], threads=4, cap=spec.get('cap'), quiet=True)
+        r = G.run_driver(b, prop, c, tier, [], threads=4, cap=spec.get('cap'), quiet=True, extra_args=['--foreign-oracle'])
         r['_src'] = src; r['_part'] = k; r['_bin'] = b
         return r
     with ThreadPoolExecutor(max_workers=4) as ex:
@@ -207,7 +207,7 @@ def run_sanitize(prop, spec, tier, known_ids, t0, args):
     cap = spec['cap_thorough'] if tier == 'thorough' else spec['cap_quick']
     def one(bm):
         b, (c, src, k) = bm
-        r = G.run_driver(b, prop, c, tier, [], threads=4, cap=cap, quiet=True, env=env)
+        r = G.run_driver(b, prop, c, tier, [], threads=4, cap=cap, quiet=True, env=env, extra_args=['--foreign-oracle'] + (['--only', args.only] if getattr(args, 'only', '') else []))
         r['_src'] = src; r['_part'] = k
         return r
     with ThreadPoolExecutor(max_workers=4) as ex:
@@ -226,7 +226,11 @@ def run_sanitize(prop, spec, tier, known_ids, t0, args):
                 kind, file, line = m.group(1), m.group(2), int(m.group(3)); sites.add((file, line, kind))
                 for k in kfl:
                     st = k['site']
-                    if st.get('file') == file and st.get('kind') == kind and abs(int(st.get('line', line)) - line) <= int(st.get('line_slack', 0)):
+                    if 'file_glob' in st:      # a family of call sites: same kind of report, same files, same operations and the same operation text in the report
+                        og = st.get('op_glob', '*'); og = og if isinstance(og, list) else [og]
+                        if st.get('kind') == kind and fnmatch.fnmatch(file, st['file_glob']) and any(fnmatch.fnmatch(v['op'], g_) for g_ in og) and _re.search(st.get('msg_regex', ''), m.group(5)):
+                            kid = k['id']; break
+                    elif st.get('file') == file and st.get('kind') == kind and abs(int(st.get('line', line)) - line) <= int(st.get('line_slack', 0)):
                         kid = k['id']; break
             if kid:
                 v['kf'] = kid; kn.append(v)
@@ -244,7 +248,7 @@ def replay_sanitize(prop, path):
     tag = os.path.splitext(os.path.basename(rec['driver']))[0] + (f"p{d['part']}" if d['part'] is not None else '')
     b = G.build(rec['driver'], rec['config'], fl, tag, (), tuple(d['libs']))
     env = dict(os.environ); env.update({'UBSAN_OPTIONS': 'halt_on_error=0:print_stacktrace=1', 'ASAN_OPTIONS': 'halt_on_error=0:detect_leaks=0'})
-    r = subprocess.run([b, '--replay-op', rec['op'], '--replay-words', ','.join(rec['input_bits'])], capture_output=True, text=True, env=env)
+    r = subprocess.run([b, '--tier', rec.get('tier', 'quick'), '--replay-op', rec['op'], '--replay-words', ','.join(rec['input_bits'])], capture_output=True, text=True, env=env)
     print(r.stdout + r.stderr[-3000:])
     if r.returncode == 1:
         print(f'VIOLATION property={prop} replay={os.path.abspath(path)}')
@@ -281,10 +285,10 @@ def mc_c14(results):
             'state_graph_note': 'states = finite float/double bit patterns visited; transitions = nextFloat/prevFloat (and n-step chains) executed on the implementation; every transition is compared with the reference model, so validated == transitions'}
 
 _C15_TABLE_Q = [('drivers/c01.cpp', [0, 3, 5, 7], [], ['-O1']), ('drivers/c11.cpp', None, ['-lquadmath'], []), ('drivers/c14.cpp', None, [], []), ('drivers/c05.cpp', None, [], []),
-                ('drivers/c18.cpp', None, [], []), ('drivers/c06.cpp', None, [], []), ('drivers/c13.cpp', None, [], [])]
-_C15_TABLE_T = [('drivers/c01.cpp', list(range(15)), [], ['-O1'])] + _C15_TABLE_Q[1:] + [('drivers/c07.cpp', None, [], []), ('drivers/c12.cpp', None, [], []), ('drivers/c02.cpp', [0, 1, 2], [], ['-O1']), ('drivers/c04.cpp', None, [], []), ('drivers/c09.cpp', None, [], ['-DC09_RECOMPOSE_DOUBLE']), ('drivers/c10.cpp', None, [], []), ('drivers/c19.cpp', None, [], [])]
+                ('drivers/c18.cpp', None, [], []), ('drivers/c06.cpp', None, [], []), ('drivers/c13.cpp', None, [], []), ('drivers/c04.cpp', None, [], [])]
+_C15_TABLE_T = [('drivers/c01.cpp', list(range(15)), [], ['-O1'])] + _C15_TABLE_Q[1:] + [('drivers/c07.cpp', None, [], []), ('drivers/c12.cpp', None, [], []), ('drivers/c02.cpp', [0, 1, 2], [], ['-O1']), ('drivers/c09.cpp', None, [], ['-DC09_RECOMPOSE_DOUBLE']), ('drivers/c10.cpp', None, [], []), ('drivers/c19.cpp', None, [], [])]
 
-_C20_TABLE_Q = [('drivers/c01.cpp', [0, 3, 5, 7, 9, 11], [], []), ('drivers/c11.cpp', None, [], []), ('drivers/c14.cpp', None, [], []), ('drivers/c05.cpp', None, [], []), ('drivers/c18.cpp', None, [], []),
+_C20_TABLE_Q = [('drivers/c01.cpp', [0, 3, 5, 7, 9, 11, 13], [], []), ('drivers/c11.cpp', None, [], []), ('drivers/c14.cpp', None, [], []), ('drivers/c05.cpp', None, [], []), ('drivers/c18.cpp', None, [], []),
                 ('drivers/c06.cpp', None, [], []), ('drivers/c07.cpp', None, [], []), ('drivers/c02.cpp', [0, 1], [], []), ('drivers/c12.cpp', None, [], []), ('drivers/c13.cpp', None, [], []), ('drivers/c19.cpp', None, [], [])]
 _C20_TABLE_T = [('drivers/c01.cpp', list(range(15)), [], [])] + _C20_TABLE_Q[1:7] + [('drivers/c02.cpp', list(range(7)), [], []), ('drivers/c12.cpp', None, [], []), ('drivers/c13.cpp', None, [], []), ('drivers/c19.cpp', None, [], []),
                 ('drivers/c04.cpp', None, [], []), ('drivers/c08.cpp', None, [], ['-DC08_HAVE_INFINITEPERSPECTIVE_LH_RH']), ('drivers/c09.cpp', None, [], ['-DC09_RECOMPOSE_DOUBLE']), ('drivers/c10.cpp', None, [], [])]
@@ -351,14 +355,14 @@ PROPS = {
    technique='exhaustive enumeration of all 2^24 8-bit RGB triples (and 16-bit lattices) through the integer YCoCg-R pair on every carrier type, of consecutive-float pairs on dense grids (all floats of [0,1] in the thorough tier) through the sRGB pair for five gammas, and of the 8-bit RGB cube / hue grids through HSV',
    text='rgb2YCoCgR/YCoCgR2rgb exactly lossless on all 2^24 triples for u8,i16,u16,i32,u32,i64 carriers; sRGB pair: range, fixes 0 and 1, monotone between adjacent grid points, mutual inverse within the bound derived from the curve constants, alpha bits untouched; HSV: hue in [0,360), round trips both ways; float YCoCg round trips; saturation/luminosity weights.',
    rule='ALL 2^24 triples; grids k/16384 + toe k/262144 + both breakpoints +-2ulp (thorough: every consecutive float pair in [0,1]); hue 360k/3600 + sector boundaries +-2ulp.'),
- 'C01': dict(src='drivers/c01.cpp', level='exploration', parts=15, flags=['-O1'],
+ 'C01': dict(src='drivers/c01.cpp', level='exploration', parts=15, flags=['-O1'], configs=['default', 'clang'], configs_quick=['default'],
    technique='exhaustive enumeration of the alphabet (component-wise function or operator) x (overload shape) x (vector length 1-4) x (element type) x (qualifier) with complete products of a special-value lattice as inputs, every tuple placed in every lane; oracle = the scalar overload of GLM itself on each component',
    text='Every component-wise function and operator of common/exponential/trigonometric/integer/vector_relational and their ext/gtc/gtx twins is instantiated for every length 1-4, highp/mediump/lowp and every element type it accepts (float, double, int, uint, i8, u8, i16, u16, i64, u64, bool), in every overload shape (vec-vec, vec-scalar, scalar-vec, vec-vec1, vec1-vec, scalar-edge forms, out-parameter forms, compound assignment, ++/--), and evaluated on the complete n-ary product of the special-value lattice; component i of the vector result is compared with the scalar overload on component i (identical bits for selection/rounding/comparison/integer/single-libm-call functions, value equality for arithmetic operators, rounding tolerance for mix/smoothstep/mod/fma, 2^-8 relative for lowp inversesqrt). Matrix abs/mix/equal on all nine shapes.',
-   rule='VALUES<T>: 77 float / 80 double special values (+-0, subnormals, ties, 2^23, 2^24, 2^31, max, inf, quiet and signalling NaN ...), 23 integer patterns per width (0, 1, extremes, alternating and run patterns); unary ops sweep VALUES, binary VALUES^2, ternary VALUES^3; lane k of a vector receives the tuple at rotated indices so neighbouring lanes always hold different tuples. Non-trivial = tuple inside the operator domain (no signed overflow, no division by zero, shift count < width).'),
- 'C02': dict(src='drivers/c02.cpp', level='model_checking', mc=mc_c02, parts=7, quick_parts=[0, 1, 2], flags=['-O1'],
+   rule='thorough tier: the lattices grow to ~430 float / ~470 double values (every 8th binade edge with 4 mantissa patterns, ties k+0.5, decimal and trigonometric constants), ALL 256 values of the 8-bit types (binary operations complete: 65536 pairs), ~250-420 patterns for 16/32/64-bit integers, ternary operations on the first 173 (119 for integers) values cubed, two compilers. quick tier: VALUES<T>: 77 float / 80 double special values (+-0, subnormals, ties, 2^23, 2^24, 2^31, max, inf, quiet and signalling NaN ...), 23 integer patterns per width (0, 1, extremes, alternating and run patterns); unary ops sweep VALUES, binary VALUES^2, ternary VALUES^3; lane k of a vector receives the tuple at rotated indices so neighbouring lanes always hold different tuples. Non-trivial = tuple inside the operator domain (no signed overflow, no division by zero, shift count < width).'),
+ 'C02': dict(src='drivers/c02.cpp', level='model_checking', mc=mc_c02, parts=7, quick_parts=[0, 1, 2], flags=['-O1'], configs=['default', 'intr_sse2_defaligned', 'intr_avx2_defaligned', 'clang'], configs_quick=['default', 'intr_sse2_defaligned'],
    technique='exhaustive enumeration of operand lattices that are complete for bilinear index errors (TAG, DEV_2 over base 0, DEV_1 over TAG) for all 27 products / 9 shapes / 81 conversions, plus breadth-first exploration of all operation sequences up to a depth over a 12-operation alphabet, each replayed on the real matrix objects and on a plain-array reference model',
    text='Stateless part: every shape x compatible operand shape x element type is evaluated on all operand tuples differing from zero in at most two entries (five non-zero values each), on distinct-prime tagged operands and their single-entry deviations; by bilinearity this exposes every wrong, missing, duplicated or mis-signed product term. Explicit-state part: all sequences (depth 2 quick, 3-4 thorough) of compound assignments, ++/--, negation, self-multiplication (aliasing) and transpose from three start matrices per shape, states = value vectors, every transition validated against the array model.',
-   rule='per op: TAG + DEV_2(0,{-2,-1,1,2,3}) + DEV_1(TAG,{0,-p}) over the combined entry list of the operands (thorough adds a DEV_3 sub-lattice for <=18 entries and element types uint, i8, i16, i64); sequences: all words over the 12-op alphabet up to the depth from 3 start matrices; a sequence whose exact result leaves the exactly-representable range is cut (counted trivial).'),
+   rule='float/double additionally with every entry divided by 7 (inexact): products and sums within (K+2) u sum|terms| of the exact sum of the stored operands, single-rounding operators bit-exact; configurations: default, aligned SIMD types (SSE2, AVX2), clang. per op: TAG + DEV_2(0,{-2,-1,1,2,3}) + DEV_1(TAG,{0,-p}) over the combined entry list of the operands (thorough adds a DEV_3 sub-lattice for <=18 entries and element types uint, i8, i16, i64); sequences: all words over the 12-op alphabet up to the depth from 3 start matrices; a sequence whose exact result leaves the exactly-representable range is cut (counted trivial).'),
  'C06': dict(src='drivers/c06.cpp', level='exploration', configs=['default', 'intr_sse2_defaligned', 'intr_avx2_defaligned'], configs_quick=['default', 'intr_sse2_defaligned'],
    technique='exhaustive enumeration of every code of every field of every pack format (all 2^2..2^16 codes per field, three companion patterns) and of structured float lattices (all 2^32 floats for the scalar pack functions, thorough) through pack/unpack, against a per-format reference decoder',
    text='37 formats described once (field offset/width/kind) and explored generically. Code sweep: every code of every <=16-bit field (complete) - decode value and component order, re-pack of canonical codes, unpack.pack.unpack idempotence, Inf/NaN codes, monotone decoding. Real sweep: every float of F32_EDGE + a grid around every quantisation step (quick) / all 2^32 floats for single-field formats (thorough) in every field: half-step (normalised) or one-mantissa-step (small float, shared exponent) accuracy, clamping at both range ends, monotonicity, no cross-talk between fields. F3x9_E1x5: all 2^32 words in the thorough tier.',
